@@ -42,4 +42,31 @@ def c02SeqAccepts (persist : Bool) (s0 : Int) (trace : List Obs) : Bool :=
 def c02SeqSender (persist : Bool) (s0 : Int) (trace : List Obs) : Int :=
   (trace.foldl (g2Step persist) (G2.init s0)).S
 
+/-! ### per-epoch version: wire order and "still in the store" -/
+
+/-- `lastFirst` = the number of the last first-time message written in this epoch (0 = none), `savedE` = what the store
+    has been asked to save since the last reset.  Clauses: first-time messages are written in strictly increasing number
+    order within an epoch; with persistence a first-time write of number n / MsgType k / resend verdict r happens while
+    the store holds (n, k, r), i.e. it was saved since the last reset. -/
+structure G3 where
+  ok : Bool
+  lastFirst : Int
+  savedE : List (Int × String × Bool)
+  deriving Repr
+
+def g3Step (persist : Bool) (g : G3) : Obs → G3
+  | .saved n k r => { g with savedE := (n, k, r) :: g.savedE }
+  | .reset => { g with lastFirst := 0, savedE := [] }
+  | .wire m =>
+    if firstTime m then
+      { g with ok := g.ok && decide (g.lastFirst < m.seq) && (!persist || g.savedE.contains (m.seq, m.kind, resendable m)),
+               lastFirst := m.seq }
+    else g
+  | _ => g
+
+def G3.init : G3 := { ok := true, lastFirst := 0, savedE := [] }
+
+def c02SeqEpochAccepts (persist : Bool) (trace : List Obs) : Bool :=
+  (trace.foldl (g3Step persist) G3.init).ok
+
 end Qfx.Sess.C02
